@@ -1,7 +1,7 @@
 // C03 — aliased parameters track their source through every update, copy and renaming
 // VF-VARIANT: san
 // VF-RULE: E1: breadth-first exploration of all histories over one AbstractParameterAliasable object with N parameters: aliasParameters(i,j) for all ordered pairs incl. i==j, unaliasParameters(i,j), bulk aliasParameters(map) for every name map with <= 3 (N=3) / <= 2 (N=4) entries, setParameterValue, setParametersValues / matchParametersValues with every sub-list over values {1,2,3}, setAllParametersValues, copy-construction (continue on the copy; and transient copy mutated to show independence), assignment into objects with three different pre-existing alias forests (continue on the assigned object; and transient), setNamespace. Three constraint configurations. Non-trivial: the transition changed the canonical state or was refused.
-// VF-BOUND: quick: N=3 without constraints to closure, N=3 mixed constraints to depth 3, N=4 to depth 2; thorough: N=3 to closure in all three constraint configurations, N=4 to depth 4; instead of 2..6 parameters; values {1,2,3} inside every intersected constraint
+// VF-BOUND: quick: N=3 without constraints to closure, N=3 mixed constraints to depth 3, N=4 to depth 2, N=4 to depth 3 over the link-centred alphabet (alias, unalias, bulk alias, single-value updates, copy/assign/rename); thorough: N=3 to closure in all three constraint configurations, N=4 to depth 4, N=4 link-centred alphabet to depth 5; instead of 2..6 parameters; values {1,2,3} inside every intersected constraint
 // VF-LEVEL: Explicit-state closure of the alias protocol on the real object for 3 parameters (every history of any length over the alphabet), depth-bounded for 4, against a parent-array reference model; every bulk-alias call runs under a CPU-time alarm so non-termination is reported with the map as witness.
 // VF-ASSUME: ASan/UBSan/libstdc++ assertions are sound detectors;; reference model: parent array + values + per-parameter interval; aliasing does not copy the value at alias time (only later changes of the source propagate), as implemented and as the statement words it;; bulk aliasing is judged on termination, on performing every requested link when it returns, and on leaving a consistent object when it raises (partial application before a raise is allowed)
 // VF-BUDGET_THOROUGH: 3000
@@ -68,7 +68,7 @@ struct Sys : vf::SysBase {
   int N, cfg; std::unique_ptr<Obj> O; Model M;
   std::vector<std::map<std::string, std::string>> maps; std::vector<std::vector<int>> subl;  // bulk alias maps; value sub-lists (0 = absent, 1..3)
   int nAlias, nUnalias, nMaps, nSet, nSub, nAll;
-  Sys(int n, int c) : N(n), cfg(c), O(new Obj(n, c, "")) {
+  Sys(int n, int c, bool reduced = false) : N(n), cfg(c), O(new Obj(n, c, "")) {
     M.n = n; M.parent.assign((size_t)n, -1); M.val.assign((size_t)n, 1); for (int i = 0; i < n; ++i) M.cons.push_back(consCfg(c, i)); M.ns = "";
     int maxEntries = n <= 3 ? 3 : 2;
     // all maps key->value with distinct keys, up to maxEntries entries
@@ -81,7 +81,10 @@ struct Sys : vf::SysBase {
     std::stable_sort(maps.begin(), maps.end(), [](const std::map<std::string, std::string>& a, const std::map<std::string, std::string>& b) { return a.size() < b.size(); });
     uint64_t tot = 1; for (int i = 0; i < n; ++i) tot *= 4;
     for (uint64_t k = 1; k < tot; ++k) { std::vector<int> d; uint64_t q = k; for (int i = 0; i < n; ++i) { d.push_back((int)(q % 4)); q /= 4; } subl.push_back(d); }
+    // reduced alphabet (link-centred: alias, unalias, bulk alias, single-value updates, copy/assign/rename; no sub-list and all-values setters)
+    if (reduced) subl.clear();
     nAlias = n * n; nUnalias = n * n; nMaps = (int)maps.size(); nSet = n * 3; nSub = (int)subl.size(); nAll = 1; for (int i = 0; i < n; ++i) nAll *= 3;
+    if (reduced) nAll = 0;
   }
   int nops() const { return nAlias + nUnalias + nMaps + nSet + 2 * nSub + nAll + 2 + 6 + 2; }
   struct Dec { int kind, a, b; };
@@ -244,8 +247,10 @@ int main(int argc, char** argv) {
   bool th = R.thorough();
   auto run = [&](int n, int cfg, int depth) { Sys proto(n, cfg); std::string nm = "alias-histories:N" + str(n) + ":cons" + str(cfg) + (depth < 64 ? ":d" + str(depth) : "");
     R.explore(nm, depth, proto.nops(), [n, cfg] { return std::unique_ptr<Sys>(new Sys(n, cfg)); }, 2.0); };
-  if (!th) { run(3, 0, 64); run(3, 2, 3); run(4, 2, 2); }
-  else { run(3, 0, 64); run(3, 1, 64); run(3, 2, 64); run(4, 2, 4); }
+  auto runReduced = [&](int n, int cfg, int depth) { Sys proto(n, cfg, true); std::string nm = "alias-histories:N" + str(n) + ":cons" + str(cfg) + ":link-centred-alphabet:d" + str(depth);
+    R.explore(nm, depth, proto.nops(), [n, cfg] { return std::unique_ptr<Sys>(new Sys(n, cfg, true)); }, 2.0); };
+  if (!th) { run(3, 0, 64); run(3, 2, 3); run(4, 2, 2); runReduced(4, 2, 3); }
+  else { run(3, 0, 64); run(3, 1, 64); run(3, 2, 64); run(4, 2, 4); runReduced(4, 0, 5); }
   R.expectSeen("aliasParameters->refused"); R.expectSeen("aliasParameters->done"); R.expectSeen("unaliasParameters->done"); R.expectSeen("bulk-alias->linked"); R.expectSeen("bulk-alias->raised");
   R.note("aliasing does not copy the value at alias time; a bulk update that names an aliased parameter directly is applied sequentially (the alias may then differ from its source until the source changes again)");
   R.note("getAliases maps every aliased parameter to one of its transitive sources (which one depends on register order); getAlias/getAliases are judged under the empty namespace only");
